@@ -104,6 +104,25 @@ def corpus():
     out.append({"k": "name", "kind": "file", "r": b"r1/", "f": b"x"})
     out.append({"k": "date", "s": 1000000, "o": -12600})
     out.append({"k": "date", "s": 1000000, "o": -86340})
+    # --- 0.9 bundles: minimal histories for the four known findings of the patch-based formats
+    meta = [["m", "Joe <joe@example.com>", 1700000000, 0, 0, []], ["m2", "Joe <joe@example.com>", 1700000100, 0, 0, []]]
+
+    def hist(fmt, ops0, ops1, meta=meta):
+        return {"g": [[], [0]], "fmt": fmt, "style": 0, "ops": [ops0, ops1], "meta": meta}
+
+    def bcase(h, base, tgt, bfmt="0.9"):
+        return {"k": "bundle", "h": h, "base": base, "tgt": tgt, "bfmt": bfmt, "extra": [], "stream": True, "dfmt": None}
+
+    dirfile = [["add", b"d1", None, "dir", "directory", None, False], ["add", b"f1", b"d1", "f", "file", b"x\n", False]]
+    out.append(bcase(hist("2a", dirfile, [["mv", b"d1", None, "dir2"]]), 0, 1))                  # C40-v09-chk-dir-rename
+    out.append(bcase(hist("pack-0.92", dirfile, [["mv", b"d1", None, "dir2"]]), 0, 1))           # same history, not CHK: fine
+    ml = [["m", "Joe <joe@example.com>", 1700000000, 0, 0, [["k", "multi\nline"]]], meta[1]]
+    out.append(bcase(hist("2a", [["add", b"f1", None, "f", "file", b"x\n", False]], [], meta=ml), None, 0))   # multiline revprop
+    plain = [["add", b"f1", None, "plain", "file", b"x\n", False]]
+    out.append(bcase(hist("pack-0.92", plain, [["mv", b"f1", None, "=> b"]]), 0, 1))             # '=> ' prefix
+    out.append(bcase(hist("pack-0.92", [], [["add", b"f1", None, "a" * 63 + "\u00e9", "file", b"x\n", False]]), 0, 1))  # 79-byte wrap
+    out.append(bcase(hist("pack-0.92", [], [["add", b"f1", None, "a" * 62 + "\u00e9", "file", b"x\n", False]]), 0, 1))  # one byte earlier: fine
+    out.append(bcase(hist("2a", dirfile, [["mv", b"d1", None, "dir2"]]), 0, 1, bfmt="4"))
     return out
 
 
